@@ -31,7 +31,22 @@ def suite(wt):
     if not any(c.tag in ("failure", "error", "skipped") for c in tc):
       passed.add("%s::%s" % (tc.get("classname"), tc.get("name")))
   os.unlink(junit)
-  return [t for t in base["stable_pass"] if t not in passed]
+  missing = [t for t in base["stable_pass"] if t not in passed]
+  # several suite tests assert on what happened within time.sleep(0.01): under machine load they fail on unchanged code too.
+  # A test that is missing from the pass set is re-run alone, up to three times, before it counts as failing.
+  still = []
+  for t in missing:
+    mod, name = t.rsplit("::", 1)
+    path = mod.replace(".", "/") + ".py::" + name
+    ok = False
+    for _ in range(3):
+      rc, out = sh("/venv/bin/python -m pytest -q -p no:cacheprovider --timeout=900 %s" % path, cwd=wt)
+      if rc == 0:
+        ok = True
+        break
+    if not ok:
+      still.append(t)
+  return still
 
 
 def confirm(wt, i, pid, name):
